@@ -3,6 +3,7 @@ import O4.Model.Crypto.Sha256
 import O4.Model.Crypto.Sha512
 import O4.Model.Crypto.Hmac
 import O4.Model.Crypto.Secretbox
+import O4.Model.Crypto.Aes
 /-!
 driver module `prim`: the executable symmetric primitives, one call per line (hex arguments,
 `-` = empty). Replies are hex, `none` (secretbox open failure), `err` (what the Go library rejects:
@@ -12,6 +13,7 @@ bad key/nonce/iv sizes, HKDF past its limit) or `bad-op`.
   hkdf <secret> <salt> <info> <n> | hkdfr <prk> <info> <n1> <n2> … (successive reads of one reader)
   salsablk <key32> <in16> (core on Sigma,key,in) | salsactr <key32> <nonce8> <block ctr> <len> | hsalsa <key32> <in16> | salsa <key32> <nonce 8|24> <off> <len> | xsalsa <key32> <nonce24> <len>
   poly <key32> <m> | sbseal <key32> <nonce24> <m> | sbopen <key32> <nonce24> <box>  (→ hex | none)
+  aesblk <key 16|24|32> <block16> | aesctr <key> <iv16> <off> <data> | aesks <key> <iv16> <off> <len>
   bench <prim> <size> <iters>   -- runs the primitive `iters` times on `size`-byte inputs, replies a checksum
 -/
 namespace Driver.Prim
@@ -51,6 +53,10 @@ def bench (prim : String) (size iters : Nat) : String :=
     benchLoop iters (fun i =>
       let b := if i % 2 == 0 then box else box.dropLast ++ [UInt8.ofNat i]
       match secretboxOpen key nonce b with | some m => m | none => [UInt8.ofNat i])
+  | "aesblk128" => benchLoop iters (fun i => aesEncryptBlock (key.take 16) (benchMsg 16 i))
+  | "aesblk256" => benchLoop iters (fun i => aesEncryptBlock key (benchMsg 16 i))
+  | "aesctr128" => benchLoop iters (fun i => aesCtrXor (key.take 16) (benchMsg 16 i) 5 (benchMsg size i))
+  | "aesctr256" => benchLoop iters (fun i => aesCtrXor key (benchMsg 16 i) 5 (benchMsg size i))
   | _ => "bad-op"
 
 def pieces (o : Bytes) : List Nat → List String
@@ -107,6 +113,16 @@ def step (_ : Unit) : List String → Unit × String
       if k.length == 32 && n.length == 24 then
         match secretboxOpen k n b with | some m => hex m | none => "none"
       else "err")
+  | ["aesblk", k, b] => ((), hex2 k b fun k b =>
+      if aesKeyOk k && b.length == 16 then hex (aesEncryptBlock k b) else "err")
+  | ["aesctr", k, iv, off, data] => ((), match off.toNat? with
+      | some off => hex3 k iv data fun k iv data =>
+          if aesKeyOk k && aesIvOk iv then hex (aesCtrXor k iv off data) else "err"
+      | none => "bad-op")
+  | ["aesks", k, iv, off, len] => ((), match off.toNat?, len.toNat? with
+      | some off, some len => hex2 k iv fun k iv =>
+          if aesKeyOk k && aesIvOk iv then hex (aesCtrKeystream k iv off len) else "err"
+      | _, _ => "bad-op")
   | ["bench", p, size, iters] => ((), match size.toNat?, iters.toNat? with
       | some s, some i => bench p s i
       | _, _ => "bad-op")
